@@ -548,6 +548,12 @@ func runPaths(c *sup.Child, b sup.Batch) {
 					if rng.Intn(2) == 0 {
 						p = "/" + p
 					}
+					if idx%5 == 0 {
+						// a backslash is an ordinary character of a name: these are single names (or
+						// names below x), whatever a layer underneath makes of the backslash
+						bs := []string{"..\\secret", "..\\x\\leak", "..\\..\\secret", "x\\..\\..\\secret", "..\\", "x/..\\..\\secret", "..\\sib\\sfile", "..\\..\\..\\hostsecret"}
+						p = bs[rng.Intn(len(bs))]
+					}
 					p2 = "../" + p
 				} else {
 					p = decodePath(idx, maxSeg)
